@@ -1,6 +1,7 @@
 package uisim
 
 import (
+	"encoding/hex"
 	"math"
 	"encoding/json"
 	"fmt"
@@ -19,11 +20,22 @@ type Trace struct {
 	// Lab (C30): not a session but the prompt lab - widths of the value
 	// prompts to provoke, Evs are the answers typed (see lab.go)
 	Lab []int `json:"lab,omitempty"`
+	// RegLab (C24): not a session either - a register file no RV64 program
+	// produces (names of any length, values of any width) under the real
+	// emulation view, rendered at several heights
+	RegLab []RegSpec `json:"reglab,omitempty"`
+}
+
+// RegSpec is one preloaded register of the register lab.
+type RegSpec struct {
+	Name string `json:"name"`
+	W    int    `json:"w"`
+	Hex  string `json:"hex"` // little-endian value bytes (cut or zero-extended to W)
 }
 
 func (t *Trace) Len() int { return len(t.Evs) }
 func (t *Trace) Without(from, to int) core.Trace {
-	c := &Trace{Desc: t.Desc, Lab: t.Lab}
+	c := &Trace{Desc: t.Desc, Lab: t.Lab, RegLab: t.RegLab}
 	c.Evs = append(append([]Ev(nil), t.Evs[:from]...), t.Evs[to:]...)
 	return c
 }
@@ -82,6 +94,15 @@ func genProgram(r *core.Rand) *elfref.Desc {
 		// moves that shift other blocks by different amounts
 		n = r.Range(6, 24)
 		o.GapPct, o.JumpPct = r.Range(25, 50), 0
+	}
+	if r.Chance(1, 6) {
+		// plenty of control and status register accesses, to well-known and
+		// to arbitrary registers
+		o.CSRPct = r.Range(15, 40)
+		o.CSRs = []int{0x300, 0x301, 0x304, 0x305, 0x320, 0x340, 0x341, 0x342, 0x343, 0x344, 0xb00, 0xb02, 0xb03, 0xb1f, 0xc00, 0xc01, 0xc02, 0xf11, 0xf14, 0x7a0, 0x180, 0x100, 0x001, 0x002, 0x003}
+		for k := r.Range(1, 6); k > 0; k-- {
+			o.CSRs = append(o.CSRs, r.Intn(4096))
+		}
 	}
 	if r.Chance(1, 5) {
 		// memory-heavy straight-line code through one pointer: stores of
@@ -749,9 +770,32 @@ func genLab(r *core.Rand) *Trace {
 	return t
 }
 
+func genRegLab(r *core.Rand) *Trace {
+	t := &Trace{}
+	for n := r.Range(1, 9); n > 0; n-- {
+		name := pick(r, "x1", "x10", "x31", "#r:w:ip", "csr768", "f0", "v", "a")
+		if r.Chance(1, 3) {
+			name = pick(r, "r", "reg", "csr", "x") + strings.Repeat(pick(r, "1", "a", "_"), r.Range(1, 40))
+		}
+		w := []int{1, 2, 4, 8, 8, 8, 16, 17, 32, 64}[r.Intn(10)]
+		t.RegLab = append(t.RegLab, RegSpec{Name: name, W: w, Hex: hex.EncodeToString(r.Bytes(r.Range(1, w)))})
+	}
+	for k := r.Range(1, 4); k > 0; k-- {
+		n := r.Intn(12)
+		if r.Chance(1, 6) {
+			n = []int{1 << 50, math.MaxInt}[r.Intn(2)]
+		}
+		t.Evs = append(t.Evs, Ev{K: "render", V: "emu", N: n})
+	}
+	return t
+}
+
 func (e *Engine) Generate(r *core.Rand, prop string, tier string) core.Trace {
 	if prop == "C30" && r.Chance(1, 6) {
 		return genLab(r)
+	}
+	if prop == "C24" && r.Chance(1, 10) {
+		return genRegLab(r)
 	}
 	t := &Trace{Desc: genProgram(r)}
 	curTrace = t
